@@ -121,7 +121,11 @@ def answerCore (fs : List (String × String)) : E String := do
             | none => throw "bad allvals"
           if all.size ≠ D then return "res=SKIP:no-spectrum"
           let gap := all[d]! - all[d - 1]!
-          if !(tolPow 8 * (fabs (all[d]!) + fabs (all[d - 1]!)) ≤ gap) then return "res=SKIP:degenerate-boundary"
+          let spec := all.foldl (fun acc x => fmax acc (fabs x)) 0
+          -- the boundary gap must be visible both relative to the two eigenvalues and relative to the whole spectrum
+          -- (several eigenvalues at rounding-noise level around 0 are one degenerate eigenvalue)
+          if !(tolPow 8 * (fabs (all[d]!) + fabs (all[d - 1]!)) ≤ gap) || !(tolPow 20 * spec ≤ gap) then
+            return "res=SKIP:degenerate-boundary"
         let gY := gramOuter Y N d
         let gY2 := gramOuter Y2 N d
         let cY := cmpArr (tolPow 16) gY2 gY
